@@ -429,7 +429,10 @@ def gen_c07(r, knobs=None):
     for pi in range(nproc):
         b.proc(hs=r.choice([0, 1]))
         root = r.randrange(len(world['roots']))
-        if name_mode:
+        if not name_mode and len(world['roots']) >= 2 and r.random() < 0.15:
+            # the chains of this process are members of a MultiChain (shared task objects under Chain.force)
+            live = _mbuild(b, r)
+        elif name_mode:
             # name mode under its documented contract (A4): no context, config names fixed per rendering
             root = r.choice(plain_roots)
             live = [b.build(root, {'form': r.choice(['mem', 'json'] if not world.get('no_json') else ['mem', 'yaml']), 'name_suffix': r.choice(['', '_v2'])}, pmode=False)]
@@ -547,6 +550,7 @@ def gen_c13(r, knobs=None):
     kn.update(knobs or {})
     world = gen.gen_world(r, kn)
     b = B(world, r)
+    faulty = r.random() < 0.3
     for pi in range(r.randint(1, 3)):
         b.proc(hs=r.choice([0, 1]))
         live = []
@@ -562,7 +566,16 @@ def gen_c13(r, knobs=None):
                 live.append(b.build(root, _equiv_render(b, root)))
             elif t < 0.7:
                 cid = r.choice(live)
-                b.req(cid, r.choice(b.names(cid)))
+                n = r.choice(b.names(cid))
+                if faulty and r.random() < 0.3:
+                    insts = b.insts(cid)
+                    ups = [n] + sorted(_upstream_names(insts[n]))
+                    b.op(op='armrun', slug=insts[r.choice(ups)].slug, kind=r.choice(RUN_FAULTS[:4]), at=0)
+                    b.req(cid, n)
+                    b.op(op='disarm')
+                    cid = r.choice(live)
+                    n = r.choice([x for x in b.names(cid) if x.split('::')[-1] == n.split('::')[-1]] or b.names(cid))
+                b.req(cid, n)
             elif t < 0.85:
                 mid = r.choice(mids)
                 members = b.multi_members[mid]
@@ -573,13 +586,13 @@ def gen_c13(r, knobs=None):
                     ns = r.sample(sorted(common), min(len(common), r.choice([1, 1, 2])))
                     others = [c for c in live if c not in members]
                     dele = r.random() < 0.3 and all(b.delete_ok(m, ns, others + [m]) for m in members)
-                    b.op(op='mforce', mid=mid, tasks=ns, names=ns, recompute=r.random() < 0.4, delete=dele)
+                    b.op(op='mforce', mid=mid, tasks=ns, names=ns, recompute=r.random() < 0.4 and not faulty, delete=dele)
             elif t < 0.93:
                 # forcing through one member chain (graph queries on a chain that holds shared task objects)
                 cid = r.choice(live)
                 names = b.names(cid)
                 ns = r.sample(names, min(len(names), r.choice([1, 2])))
-                b.op(op='cforce', cid=cid, tasks=ns, names=ns, recompute=r.random() < 0.3, delete=False)
+                b.op(op='cforce', cid=cid, tasks=ns, names=ns, recompute=r.random() < 0.3 and not faulty, delete=False)
             else:
                 _inspect(b, r.choice(live), ['has_data', 'flags', 'data_path'])
     return b.scenario()
@@ -660,7 +673,8 @@ def gen_c12(r, knobs=None):
     b.proc(hs=r.choice([0, 1, 2]), tree='v140')
     for root in roots:
         rd = b.render(rich=True)
-        rd.pop('name_suffix', None) if not pmode else None
+        if not pmode:
+            rd['name_suffix'] = r.choice(['', '_v2', '.v2', '.final.1'])     # config names with dots are names too
         renders[root] = rd
         cid = b.build(root, rd, pmode=pmode)
         names = b.names(cid)
@@ -687,7 +701,7 @@ def gen_c12(r, knobs=None):
 def gen_c20(r, knobs=None):
     """name-mode store partially computed -> dry migration -> migration -> second migration -> parameter-mode chain on
     the target; listings of source and target between the steps."""
-    kn = {'kinds': PERSISTED_KINDS + ['mem'], 'n_roots': (1, 2), 'n_pipes': (1, 4), 'p_override': 0.0, 'p_twin': 0.0}
+    kn = {'kinds': PERSISTED_KINDS + ['mem'], 'n_roots': (1, 2), 'n_pipes': (1, 4), 'p_override': 0.0, 'p_twin': 0.25}
     kn.update(knobs or {})
     world = gen.gen_world(r, kn)
     b = B(world, r)
